@@ -337,6 +337,11 @@ pub struct MSink {
     pub metas: RefCell<Vec<usize>>,
     pub popped: RefCell<Vec<usize>>,
     pub xml: bool,
+    /// (address of the tokenizer, accessor): the line of the token being processed right now
+    pub line_probe: Cell<Option<(usize, fn(usize) -> u64)>>,
+    /// sink calls made while the sink's idea of the current line differs from the tokenizer's
+    pub line_problems: RefCell<Vec<String>>,
+    pub line_checked: Cell<u64>,
 }
 
 impl MSink {
@@ -359,10 +364,25 @@ impl MSink {
             metas: RefCell::new(vec![]),
             popped: RefCell::new(vec![]),
             xml: false,
+            line_probe: Cell::new(None),
+            line_problems: RefCell::new(vec![]),
+            line_checked: Cell::new(0),
         }
     }
     fn bad(&self, msg: String) {
         self.contract.borrow_mut().push(msg);
+    }
+    /// C09 (forwarding clause): whenever the builder calls a tree-changing sink method, the last line
+    /// passed to set_current_line (initially 1) must be the line of the token being processed
+    fn note_call(&self, what: &str) {
+        if let Some((addr, f)) = self.line_probe.get() {
+            let tok_line = f(addr);
+            let sink_line = self.lines.borrow().last().copied().unwrap_or(1);
+            self.line_checked.set(self.line_checked.get() + 1);
+            if tok_line != sink_line && self.line_problems.borrow().len() < 4 {
+                self.line_problems.borrow_mut().push(format!("{what}: the sink was last told line {sink_line}, the token being processed is on line {tok_line}"));
+            }
+        }
     }
     fn rch(&self, n: usize) -> Option<RcHandle> {
         let mut hs = self.rc_handles.borrow_mut();
@@ -541,6 +561,7 @@ impl TreeSink for MSink {
         OwnedName { ns: n, local: l }
     }
     fn create_element(&self, name: QualName, attrs: Vec<Attribute>, flags: ElementFlags) -> usize {
+        self.note_call("create_element");
         self.check_attrs("create_element", &attrs);
         let (ns, prefix, local) = qn(&name);
         let mut d = self.dom.borrow_mut();
@@ -576,18 +597,21 @@ impl TreeSink for MSink {
         id
     }
     fn create_comment(&self, text: StrTendril) -> usize {
+        self.note_call("create_comment");
         let id = self.dom.borrow_mut().add(Kind::Comment(text.to_string()), true);
         let h = self.rc.as_ref().map(|rc| rc.create_comment(text));
         self.push_handle(id, h, None);
         id
     }
     fn create_pi(&self, target: StrTendril, data: StrTendril) -> usize {
+        self.note_call("create_pi");
         let id = self.dom.borrow_mut().add(Kind::Pi { target: target.to_string(), data: data.to_string() }, true);
         let h = self.rc.as_ref().map(|rc| rc.create_pi(target, data));
         self.push_handle(id, h, None);
         id
     }
     fn append(&self, parent: &usize, child: NodeOrText<usize>) {
+        self.note_call("append");
         self.check_live("append(parent)", *parent);
         self.can_have_children("append", *parent);
         let c = self.child_of("append", *parent, &child);
@@ -608,6 +632,7 @@ impl TreeSink for MSink {
         self.note_insert(c);
     }
     fn append_based_on_parent_node(&self, element: &usize, prev_element: &usize, child: NodeOrText<usize>) {
+        self.note_call("append_based_on_parent_node");
         self.check_live("append_based_on_parent_node(element)", *element);
         self.check_live("append_based_on_parent_node(prev)", *prev_element);
         let has_parent = self.dom.borrow().nodes[*element].parent.is_some();
@@ -618,6 +643,7 @@ impl TreeSink for MSink {
         }
     }
     fn append_doctype_to_document(&self, name: StrTendril, public_id: StrTendril, system_id: StrTendril) {
+        self.note_call("append_doctype_to_document");
         self.doctypes.set(self.doctypes.get() + 1);
         if self.doctypes.get() > 1 {
             self.bad("append_doctype_to_document called twice".into());
@@ -696,6 +722,7 @@ impl TreeSink for MSink {
         }
     }
     fn append_before_sibling(&self, sibling: &usize, new_node: NodeOrText<usize>) {
+        self.note_call("append_before_sibling");
         self.check_live("append_before_sibling(sibling)", *sibling);
         let (sp, is_text) = {
             let d = self.dom.borrow();
@@ -722,6 +749,7 @@ impl TreeSink for MSink {
         self.note_insert(c);
     }
     fn add_attrs_if_missing(&self, target: &usize, attrs: Vec<Attribute>) {
+        self.note_call("add_attrs_if_missing");
         self.check_attrs("add_attrs_if_missing", &attrs);
         if self.check_elem("add_attrs_if_missing", *target) {
             let add: Vec<MAttr> = attrs.iter().map(MAttr::from).collect();
@@ -752,6 +780,7 @@ impl TreeSink for MSink {
         }
     }
     fn remove_from_parent(&self, target: &usize) {
+        self.note_call("remove_from_parent");
         self.check_live("remove_from_parent", *target);
         if let (Some(rc), Some(h)) = (&self.rc, self.rch(*target)) {
             rc.remove_from_parent(&h);
@@ -759,6 +788,7 @@ impl TreeSink for MSink {
         self.dom.borrow_mut().detach(*target);
     }
     fn reparent_children(&self, node: &usize, new_parent: &usize) {
+        self.note_call("reparent_children");
         self.check_live("reparent_children(node)", *node);
         self.check_live("reparent_children(new_parent)", *new_parent);
         self.can_have_children("reparent_children", *new_parent);
